@@ -440,7 +440,7 @@ func (m *Model) Step(op Op, got Res) Verdict {
 		if len(p1) > 0 && got.Stat.Name != p1[len(p1)-1] {
 			v.Mismatch = fmt.Sprintf("Lstat Name=%q, want %q", got.Stat.Name, p1[len(p1)-1])
 		}
-		if !n.Dir && got.Stat.Size != int64(len(n.Data)) {
+		if CheckSizes && !n.Dir && got.Stat.Size != int64(len(n.Data)) {
 			v.Mismatch = fmt.Sprintf("Lstat Size=%d, want %d", got.Stat.Size, len(n.Data))
 		}
 	case OpFilespace:
